@@ -44,11 +44,11 @@ Proof.
   change (join sep (s :: s2 :: r2)) with (s ++ sep ++ join sep (s2 :: r2)). apply Forall_app. split; [exact Hs|]. apply Forall_app. split; assumption.
 Qed.
 
-Lemma Forall_sort_kv {A} (Q : bstr * A -> Prop) l : Forall Q l -> Forall Q (sort_kv l).
+Lemma Forall_sort_kv {A} (Q : bstr * A -> Prop) l : Forall Q l -> Forall Q (json_sort_kv l).
 Proof.
-  induction 1 as [|[k x] r Hkx Hr IH]; [constructor|]. unfold sort_kv in *. cbn [fold_right fst snd].
-  revert IH. generalize (fold_right (fun (kx : bstr * A) acc => insert_kv (fst kx) (snd kx) acc) [] r). intros acc Hacc.
-  induction acc as [|[k' x'] acc IHa]; [repeat constructor; exact Hkx|]. cbn [insert_kv]. inversion Hacc; subst.
+  induction 1 as [|[k x] r Hkx Hr IH]; [constructor|]. unfold json_sort_kv in *. cbn [fold_right fst snd].
+  revert IH. generalize (fold_right (fun (kx : bstr * A) acc => json_insert_kv (fst kx) (snd kx) acc) [] r). intros acc Hacc.
+  induction acc as [|[k' x'] acc IHa]; [repeat constructor; exact Hkx|]. cbn [json_insert_kv]. inversion Hacc; subst.
   destruct (bstr_leb k k'); constructor; auto.
 Qed.
 
